@@ -5,7 +5,7 @@
    the order or history of insertions and removals, nor of the node.
 
    State: members[n] = current members of node n's ring (member |-> last inserted value), and memo =
-   the owner first observed for a (member set, key) pair; any later Lookup of the same key on ANY ring
+   the owner first observed for a (member set, key) pair (memo[M][k]); any later Lookup of the same key on ANY ring
    holding the same member set must return the same owner.  Nothing else is demanded here.
 
    Owner(...) below is the implementation-shaped definition of the owner for a table-driven hash (used by
@@ -31,16 +31,34 @@ Remove(n, m) ==
     /\ members' = [x \in DOMAIN members \cup {n} |->
                      IF x = n THEN [y \in Live(n) \ {m} |-> Mem(n)[y]] ELSE members[x]]
     /\ UNCHANGED memo
+\* memo[M][k] = the owner first observed for key k on a ring holding exactly the member set M
+Known(M) == IF M \in DOMAIN memo THEN memo[M] ELSE EmptyFn
+Remember(M, f) == memo' = [x \in DOMAIN memo \cup {M} |-> IF x = M THEN f ELSE memo[x]]
 \* Lookup(key k) on node n answered (found f, member m, value ver)
 Lookup(n, k, f, m, ver) ==
-    LET key == <<Live(n), k>> IN
-    IF Live(n) = {} THEN f = FALSE /\ UNCHANGED pvars
+    LET M == Live(n) old == Known(M) IN
+    IF M = {} THEN f = FALSE /\ UNCHANGED pvars
     ELSE /\ f = TRUE
-         /\ m \in Live(n)
+         /\ m \in M
          /\ ver = Mem(n)[m]
-         /\ IF key \in DOMAIN memo
-              THEN memo[key] = m /\ UNCHANGED pvars
-              ELSE memo' = [x \in DOMAIN memo \cup {key} |-> IF x = key THEN m ELSE memo[x]] /\ UNCHANGED members
+         /\ IF k \in DOMAIN old
+              THEN old[k] = m /\ UNCHANGED pvars
+              ELSE Remember(M, [x \in DOMAIN old \cup {k} |-> IF x = k THEN m ELSE old[x]]) /\ UNCHANGED members
+\* a batch of Lookups on node n with no mutation in between: keys ks answered fs / ms / vers (parallel sequences)
+BatchOK(n, ks, fs, ms, vers) ==
+    LET M == Live(n) old == Known(M) I == 1..Len(ks) IN
+    /\ Len(fs) = Len(ks) /\ Len(ms) = Len(ks) /\ Len(vers) = Len(ks)
+    /\ IF M = {} THEN \A i \in I : fs[i] = FALSE
+       ELSE /\ \A i \in I : fs[i] = TRUE /\ ms[i] \in M /\ vers[i] = Mem(n)[ms[i]]
+            /\ \A i \in I : ks[i] \in DOMAIN old => old[ks[i]] = ms[i]
+            /\ \A i, j \in I : ks[i] = ks[j] => ms[i] = ms[j]
+LookupBatch(n, ks, fs, ms, vers) ==
+    LET M == Live(n) old == Known(M) I == 1..Len(ks) IN
+    /\ BatchOK(n, ks, fs, ms, vers) = TRUE
+    /\ IF M = {} THEN UNCHANGED pvars
+       ELSE /\ Remember(M, [x \in DOMAIN old \cup { ks[i] : i \in I } |->
+                              IF x \in DOMAIN old THEN old[x] ELSE ms[CHOOSE i \in I : ks[i] = x]])
+            /\ UNCHANGED members
 LenIs(n, c) == c = Cardinality(Live(n)) /\ UNCHANGED pvars
 
 \* ---- implementation-shaped owner for a table-driven hash --------------------------------------
